@@ -680,8 +680,8 @@ func main() {
 			run.Notes = append(run.Notes, capNote)
 		}
 	}
-	if len(ck.inconcl) > 0 {
-		exhaustive = false
+	if len(ck.inconcl) > 0 || len(ck.notRepro) > 0 {
+		exhaustive = false // some executions were inconclusive (not set up, or a candidate that did not reproduce 5/5)
 	}
 	if ck.kindsSeen.Len() < len(allKinds())+1 {
 		if exhaustive || run.Quick() {
